@@ -66,7 +66,7 @@ def tlc_jobs(ctx, quick):
     else:
         for sp in ['rn2', 'discr2', 'rnw2']:
             for g in ['core', 'core2']:
-                exp('d2-%s-%s' % (sp, g), sp, 2, g, deep=g, xs='quick')
+                exp('d2-%s-%s' % (sp, g), sp, 2, g, deep=g, xs='tiny')
         for sp in fu.SPACES_BIG:
             exp('big-' + sp, sp, 1 if sp in ('rn3', 'discr3') else 0, 'all', xs='quick')
     # non-vacuity of the law run: a deliberately false law must be refuted
@@ -406,10 +406,17 @@ def driver_program(arg):
 # ------------------------------------------------------------------ check
 def run(ctx):
     quick = ctx.tier == 'quick'
-    ctx.rule = ('functional programs of the bounded FuncMachine (catalogue leaf + <= 1 rule on every leaf, 2 rules on a core '
-                'of leaves; 6 space kinds) x sigma x x exported by TLC with the certified lattice argmin, replayed on real '
-                'ODL functionals; plus a deterministic enumeration on larger spaces and seeded random inputs validated by '
-                'TLC; distinct = hash of (program, space, sigma, x); non-trivial = the certified prox differs from x and from 0')
+    ctx.rule = ('functional programs of the bounded FuncMachine exported by TLC with the certified lattice argmin and replayed on '
+                'real ODL functionals: ' +
+                ('every catalogue leaf on each of 6 space kinds x 16 points x steps {1/2, 5/2, per-component}; one rule on top '
+                 'of the leaf group assigned to each space (rotation table ROT: every (leaf, rule) pair on one space); two '
+                 'rules on top of L1 on rn' if quick else
+                 'every catalogue leaf on each of 6 space kinds x 64 points x steps {1/2, 1, 2, 5/2, per-component}; every '
+                 '(leaf, rule) pair on every space x 16 points; two rules on two cores of 4 leaves on 3 spaces; 3- and '
+                 '4-entry spaces (rn3, discr3, power2, pspace2)') +
+                '; plus a deterministic enumeration on larger spaces (incl. every closed-form factory with lam / g / per-point '
+                'step options and functionals outside the catalogue) and seeded random inputs, all validated by TLC; '
+                'distinct = hash of (program, space, sigma, x); non-trivial = the certified prox differs from x and from 0')
     ctx.assumptions += [
         'steps sigma in {1/2, 1, 2, 5/2} (scalar) and one per-component step where the documentation allows it',
         'inputs and parameters on the quarter lattice; observations snapped to multiples of 1/240 with tolerance 2^-36',
@@ -444,9 +451,10 @@ def run(ctx):
             seen.add(k)
             progs.append(r)
     ctx.extra['programs_exported'] = len(progs)
+    ctx.extra['programs_by_outermost_rule'] = fu.by_rule(progs)       # every action of the machine is exercised
     ctx.extra['programs_with_prox_cases'] = sum(1 for r in progs if r['cases'])
     per_case = 1 if quick else 2
-    args = [(r, ctx.seed, per_case, True) for r in progs if r['cases']]
+    args = [(r, ctx.seed, per_case if r['k'] <= 1 else 1, True) for r in progs if r['cases']]
     with mp.Pool(min(14, os.cpu_count() or 4)) as pool:
         outs = pool.map(replay_program, args, chunksize=4)
         # ---- driver beyond the TLC constants
